@@ -12,8 +12,12 @@
                    port, bytes the device will still deliver
      consumed x    bytes call x returned ++ bytes it threw away (discard_read, socket open)
      occ t s i     t occurs in s at index i
-     shortest t b  b = a ++ t and t occurs in b at index |a| only *)
-Require Import QV.C13.Model QV.C13.Proofs QV.C13.ProofsSerial QV.C13.ProofsRun.
+     shortest t b  b = a ++ t and t occurs in b at index |a| only
+     ev_dt_ok e    the event's clock advance dt is >= 0 (time never runs backwards)
+     sent s        the byte strings handed to sendall / sendto / Serial.write so far, oldest first
+     accepted_writes ops outs   the arguments of the write calls of a run that returned normally *)
+Require Import QV.C13.Model QV.C13.Proofs QV.C13.ProofsSerial QV.C13.ProofsRun QV.C13.ProofsFuel
+               QV.C13.ProofsWrite.
 
 (* Nothing lost, duplicated or reordered: for every oracle and every call sequence, what the calls
    returned or discarded, in call order, followed by the buffer and the not yet delivered bytes, is
@@ -78,8 +82,9 @@ Theorem C13_rut_len : forall k s n t s' x b,
 Proof. exact rut_len. Qed.
 Print Assumptions C13_rut_len.
 
-(* ... and it is FALSE for QMI_UdpTransport as it is in the current tree: one 10-byte datagram
-   arriving one tick late, read_until_timeout(4, 0) returns all 10 bytes. *)
+(* ... and it is FALSE for QMI_UdpTransport as it was before the fix "read_until_timeout never
+   returns more than nbytes" (whole buffer handed out): one 10-byte datagram arriving one tick late,
+   read_until_timeout(4, 0) returns all 10 bytes.  Kept as the regression witness. *)
 Theorem C13_rut_len_udp_refuted :
   exists s n t s' x b,
     kwf (Sock udp_cfg_cur) s /\ step (Sock udp_cfg_cur) s (OpRut n t) = (s', x) /\
@@ -124,6 +129,58 @@ Theorem C13_sock_total : forall c s o s' x,
 Proof. exact sock_no_fuel. Qed.
 Print Assumptions C13_sock_total.
 
+(* Serial: when the clock never runs backwards the model's fuel always suffices (and that timing
+   condition is an invariant of the oracle) *)
+Theorem C13_serial_total : forall s o s' x,
+  Forall ev_dt_ok (orc s) -> step Serial s o = (s', x) ->
+  Forall ev_dt_ok (orc s') /\ o_res x <> RFuel.
+Proof. exact serial_step_total. Qed.
+Print Assumptions C13_serial_total.
+
+(* All three kinds, whole runs: the out-of-fuel outcome never arises, so every other theorem is a
+   statement about real outcomes only *)
+Theorem C13_never_out_of_fuel : forall k o t0 ops s' outs,
+  (forall c, k = Sock c -> wf c o) -> (k = Serial -> Forall ev_dt_ok o) ->
+  run k (init o t0) ops = (s', outs) -> Forall (fun x => o_res x <> RFuel) outs.
+Proof. exact run_total_init. Qed.
+Print Assumptions C13_never_out_of_fuel.
+
+(* write: a closed transport never writes (no device call at all, nothing changes) *)
+Theorem C13_closed_never_writes : forall k s d s' x,
+  is_open s = false -> step k s (OpWrite d) = (s', x) ->
+  s' = s /\ o_res x = RInvalid /\ o_dropped x = [] /\ o_calls x = [].
+Proof. exact (fun k s d s' x => closed_step k s (OpWrite d) s' x). Qed.
+Print Assumptions C13_closed_never_writes.
+
+(* write on an open transport is accepted, makes exactly one send call carrying exactly the caller's
+   bytes (sockets: after settimeout(None)), and leaves the read side (buffer, port, device, clock)
+   untouched *)
+Theorem C13_write_open : forall k s d s' x,
+  is_open s = true -> step k s (OpWrite d) = (s', x) ->
+  o_res x = RNone /\ o_dropped x = [] /\
+  o_calls x = match k with Sock _ => [DSetTmo None; DSend d] | Serial => [DSend d] end /\
+  buf s' = buf s /\ pend s' = pend s /\ orc s' = orc s /\ clk s' = clk s /\ is_open s' = true.
+Proof. exact write_open. Qed.
+Print Assumptions C13_write_open.
+
+(* for every call sequence (reads, discards, open/close interleaved at will): what reached the
+   device's send call is exactly the sequence of accepted write arguments, unchanged and in order;
+   in particular no other operation ever sends anything *)
+Theorem C13_write_reaches_device : forall k o t0 ops s' outs,
+  run k (init o t0) ops = (s', outs) -> sent s' = accepted_writes ops outs.
+Proof. exact run_sent_init. Qed.
+Print Assumptions C13_write_reaches_device.
+
+(* discard_read never resurrects: the bytes a call returns are the stream bytes at the offset right
+   after everything earlier calls returned OR discarded, so a discarded byte (its position is
+   before that offset) is never part of a later result *)
+Theorem C13_no_resurrection : forall k o t0 ops s' pre x post,
+  (forall c, k = Sock c -> wf c o) ->
+  run k (init o t0) ops = (s', pre ++ x :: post) ->
+  firstn (length (returned x)) (skipn (length (concat (map consumed pre))) (stream_of o)) = returned x.
+Proof. exact result_position. Qed.
+Print Assumptions C13_no_resurrection.
+
 (* ------------------------------------------------------------------------------------------ *)
 (* Non-vacuity: concrete runs in which the hypotheses hold and the interesting paths are taken. *)
 (* ------------------------------------------------------------------------------------------ *)
@@ -164,3 +221,24 @@ Example C13_ex_udp_fixed :
                          [OpOpen; OpRut 4 (Some 0%Z)] in
   (map o_res outs, buf s') = ([RNone; RBytes [65;66;67;68]%N], [69;70;71;72;73;74]%N).
 Proof. vm_compute. reflexivity. Qed.
+
+(* writes interleaved with reads and a discard; the write on the closed transport is refused and
+   does not reach the device *)
+Example C13_ex_write :
+  let '(s', outs) := run (Sock tcp_cfg) (init [Chunk [65;66;67]%N 0] 0)
+       [OpWrite [1]%N; OpOpen; OpWrite [2;3]%N; OpRead 1 (Some 5%Z); OpDiscard; OpWrite []; OpClose;
+        OpWrite [4]%N] in
+  (sent s', map o_res outs, concat (map consumed outs)) =
+  ([[2;3]%N; []], [RInvalid; RNone; RNone; RBytes [65]%N; RNone; RNone; RNone; RInvalid], [65;66;67]%N).
+Proof. vm_compute. reflexivity. Qed.
+
+(* discard between two reads: the second read gets the bytes after the discarded ones *)
+Example C13_ex_discard :
+  map (fun x => (o_res x, o_dropped x))
+      (snd (run Serial (init [Chunk [65;66;67]%N 0; Chunk [68;69]%N 0; Chunk [70]%N 0] 0)
+                [OpOpen; OpRead 1 (Some 50%Z); OpDiscard; OpRead 1 (Some 50%Z)]))
+  = [(RNone, []); (RBytes [65]%N, []); (RNone, [66;67;68;69]%N); (RBytes [70]%N, [])].
+Proof. vm_compute. reflexivity. Qed.
+
+Example C13_ex_dt_ok : Forall ev_dt_ok [Chunk [65]%N 0; TimeoutEv 40; Chunk [66]%N 3; Eof].
+Proof. repeat constructor; vm_compute; discriminate. Qed.
